@@ -37,7 +37,10 @@ def report_trace_result(rep, res, prop_keys):
         return True
     d = sc.describe_rejection(res)
     ev = json.loads(d["rejected_event"]) if d["rejected_event"] else {}
-    if res["violated"]:
+    if res["violated"] == "RhoValue":
+        key = "trace:value:rho"
+        what = "%s (case %s, line %s)" % (res.get("rho_value"), d["case"], d["line"])
+    elif res["violated"]:
         key = "trace:invariant:%s" % res["violated"]
         what = "trace reaches a state violating %s (case %s, line %s)" % (res["violated"], d["case"], d["line"])
     else:
